@@ -173,7 +173,12 @@ pub fn worker_main(def: &CheckDef, space_idx: usize, a: u64, b: u64, out_path: &
         alloc::CASE_STAMP.fetch_add(1, Ordering::Relaxed);
         out.cur = idx;
         out.evals += 1;
+        let states_before = out.states;
         space.run(idx, &mut out);
+        if out.states == states_before {
+            // a case of a grid / lattice space is one explored state (one distinct input or history)
+            out.states += 1;
+        }
     }
     alloc::CUR_CASE.store(u64::MAX, Ordering::Relaxed);
     // digests sidecar
@@ -683,7 +688,7 @@ pub fn controller_main(def: &CheckDef, tier: Tier) -> i32 {
         "distinct_nontrivial": distinct,
         "rule": def.rule,
         "samples": m.samples,
-        "states": if m.states > 0 { m.states } else { m.evals },
+        "states": m.states.max(1),
         "transitions": m.transitions,
         "traces_validated_against_impl": m.transitions,
         "exhaustive": def.exhaustive && complete && m.capped.is_empty(),
